@@ -15,6 +15,10 @@ CHILD = os.path.join(os.path.dirname(os.path.abspath(__file__)), "vproc_child.py
 PY = sys.executable
 
 
+OLD_VERSIONS = ["v0.0.1", "v1.9.0", "v1.12.0", "v1.4.2", "v1.30.4", "1.31"]
+_OLD_COUNTER = __import__("itertools").count()
+
+
 def default_keys_and_version():
     from evo import __version__
     from evo.tools.settings_template import DEFAULT_SETTINGS_DICT
@@ -94,7 +98,7 @@ class World:
             with open(os.path.join(evo, "settings.json"), "w") as f:
                 json.dump(old, f, indent=4, sort_keys=True)
             with open(os.path.join(evo, "assets_version"), "w") as f:
-                f.write("v0.0.1")
+                f.write(OLD_VERSIONS[next(_OLD_COUNTER) % len(OLD_VERSIONS)])       # older releases (any string other than the current one)
         elif scenario == "ready":
             with open(os.path.join(evo, "settings.json"), "w") as f:
                 json.dump(self.defaults, f, indent=4, sort_keys=True)
